@@ -1,28 +1,157 @@
-(* C08 — maxvol / maxvol_rect.  Only statements, each closed by [exact]. *)
-From Coq Require Import List Arith Lia PeanoNat ZArith.
-From TV Require Import Num.Ops Lin.Mat Model.Maxvol Proofs.MaxvolP.
+(* C08 — maxvol / maxvol_rect / _maxvol.  Only statements, each closed by [exact], and non-vacuity Examples.
+
+   Reading guide.  [ordfield K] : the carrier is an ordered field (laws as a record; proved for Qc below).
+   [lu_contract K A (lu_init A)] : the LU-based initialisation returned Ok (I0, B0) with A = B0 A[I0],
+   B0[I0] = Id, I0 distinct valid rows (the oracle contract; full column rank enters only here).
+   [mv_inv K A I B] is that same triple of facts, [maxvol_post] / [rect_post] / [sel_post] are the clauses of the
+   property text in matrix form ([meq], [mmul], [mrows], [mid] of Lin/Mat.v).
+   [maxvol_rect] is the model of the REPAIRED code (arg-max over the rows not selected so far),
+   [maxvol_rect_pinned] the code as pinned ( i = np.argmax(F) ); see C08_rect_distinct_refuted. *)
+From Coq Require Import List Arith Lia PeanoNat ZArith QArith Qcanon.
+From TV Require Import Num.Ops Lin.Mat Model.Maxvol Proofs.MaxvolP Proofs.MaxvolRectP.
 Import ListNotations.
 
-(* one swap of maxvol preserves A = B A[I], B[I] = Id, I distinct and valid (any ordered field, all sizes);
-   only B_ij <> 0 is needed, which the loop test |B_ij| > e >= 0 implies *)
+(* ---------------- maxvol ---------------- *)
+
+(* one swap  I[j] := i; B -= b_j (b_i - e_j) / B_ij  preserves A = B A[I], B[I] = Id, I distinct and valid.
+   Only B_ij <> 0 is needed (the loop guarantees it: |B_ij| > e >= 0). *)
 Theorem C08_maxvol_step_inv : forall (T : Type) (K : ops T), ordfield K ->
-  forall A I B i j, mv_inv K A I B -> i < mr A -> j < mc A -> mget K B i j <> o0 K ->
+  forall A I B i j, mv_inv K A I B -> (i < mr A)%nat -> (j < mc A)%nat -> mget K B i j <> o0 K ->
   mv_inv K A (set_nth I j i) (maxvol_update K B i j).
 Proof. exact @maxvol_step_inv. Qed.
 
-(* maxvol on a tall matrix whose initialisation meets its contract: r distinct valid rows, A = B A[I], B[I] = Id,
-   and max|B| <= e whenever the loop was left by its test (conv = true), for every iteration limit k *)
+(* every iteration limit k, every e >= 0: r distinct valid rows, A = B A[I], B[I] = Id, and max|B| <= e
+   whenever the loop was left by its test (third component true) *)
 Theorem C08_maxvol_spec : forall (T : Type) (K : ops T), ordfield K ->
   forall (lu_init : @lu_t T) A e k,
-  0 < mc A -> mc A < mr A -> oleb K (o0 K) e = true -> lu_contract K A (lu_init A) ->
+  (0 < mc A)%nat -> (mc A < mr A)%nat -> oleb K (o0 K) e = true -> lu_contract K A (lu_init A) ->
   exists I B conv, maxvol_full K lu_init A e k = Ok (I, B, conv) /\ maxvol K lu_init A e k = Ok (I, B) /\
                    maxvol_post K A e I B conv.
 Proof. exact @maxvol_spec. Qed.
 
 Theorem C08_maxvol_rejects : forall (T : Type) (K : ops T) (lu_init : @lu_t T) A e k,
-  mr A <= mc A -> maxvol K lu_init A e k = Err ValueError.
+  (mr A <= mc A)%nat -> maxvol K lu_init A e k = Err ValueError.
 Proof. exact @maxvol_rejects. Qed.
 
-(* non-vacuity: the laws hold for the exact carrier used in the correspondence runs *)
+(* ---------------- maxvol_rect ---------------- *)
+
+(* the augmentation by ANY unselected row i preserves A = B A[I] and keeps the tracked vector F equal to the
+   masked squared row norms ( ||b - l v b_i||^2 + (l v)^2 = ||b||^2 - l v^2 ), I stays distinct *)
+Theorem C08_rect_inv : forall (T : Type) (K : ops T), ordfield K ->
+  forall A I Sm B F i, rect_inv K A I Sm B F -> (i < mr A)%nat -> nth i Sm false = true ->
+  let v := rect_v K B i in let l := odiv K (o1 K) (oadd K (o1 K) (nth i v (o0 K))) in
+  rect_inv K A (I ++ [i]) (mask_off Sm i) (rect_update K B i v l) (rect_F K (mask_off Sm i) F v l (mr B)).
+Proof. exact @rect_step_inv. Qed.
+
+(* repaired code, all 0 <= dr_min <= dr_max (or dr_max = None) with r + dr_min <= n:
+   between r + dr_min and min(n, r + dr_max) DISTINCT valid rows, A = B A[I], B[I] = Id, and every squared row
+   norm of B is <= e*e when the loop stopped before the upper limit (st = true) *)
+Theorem C08_rect_spec : forall (T : Type) (K : ops T), ordfield K ->
+  forall (lu_init : @lu_t T) A e dr_min dr_max e0 k0,
+  (0 < mc A)%nat -> (mc A < mr A)%nat -> oleb K (o0 K) e0 = true -> oleb K (o1 K) (omul K e e) = true ->
+  lu_contract K A (lu_init A) ->
+  (0 <= dr_min)%Z -> (mc A + Z.to_nat dr_min <= mr A)%nat ->
+  (match dr_max with Some d => (dr_min <= d)%Z | None => True end) ->
+  exists I B st, maxvol_rect_full K true lu_init A e dr_min dr_max e0 k0 = Ok (I, B, st) /\
+                 maxvol_rect K lu_init A e dr_min dr_max e0 k0 = Ok (I, B) /\
+                 rect_post K A e (mc A + Z.to_nat dr_min) (rect_hi A dr_max) I B st.
+Proof. exact @rect_spec. Qed.
+
+(* pinned code: on every run in which each selected residual is positive it returns exactly what the repaired
+   code returns, so C08_rect_spec transfers (distinct rows under the hypothesis F[argmax] > 0) *)
+Theorem C08_rect_pinned_agrees : forall (T : Type) (K : ops T), ordfield K ->
+  forall (lu_init : @lu_t T) A e dr_min dr_max e0 k0,
+  (0 < mc A)%nat -> (mc A < mr A)%nat -> oleb K (o0 K) e0 = true -> lu_contract K A (lu_init A) ->
+  rect_pos_full K lu_init A e dr_min dr_max e0 k0 ->
+  maxvol_rect_full K false lu_init A e dr_min dr_max e0 k0 = maxvol_rect_full K true lu_init A e dr_min dr_max e0 k0.
+Proof. exact @rect_pinned_full_agrees. Qed.
+
+(* finding S1, machine-checked on the faithful model of the pinned code: A = [[1],[0]] (tall, full column rank, a
+   zero row), dr_min = dr_max = 1 satisfies every hypothesis of C08_rect_spec, yet the pinned arg-max returns
+   I = [0; 0] (duplicate rows) and B[I] <> Id *)
+Theorem C08_rect_distinct_refuted :
+  exists (A : mat Qc) (e e0 : Qc) (dr : Z) (k0 : nat) (I : list nat) (B : mat Qc),
+    (0 < mc A)%nat /\ (mc A < mr A)%nat /\ lu_contract OQc A (lu_exec OQc A) /\
+    (0 <= dr)%Z /\ (mc A + Z.to_nat dr <= mr A)%nat /\
+    oleb OQc (o1 OQc) (omul OQc e e) = true /\ oleb OQc (o0 OQc) e0 = true /\
+    maxvol_rect_pinned OQc (lu_exec OQc) A e dr (Some dr) e0 k0 = Ok (I, B) /\
+    ~ NoDup I /\ ~ meq OQc (mrows OQc B I) (mid OQc (length I)).
+Proof. exact rect_distinct_refuted. Qed.
+
+(* inconsistent dr_min / dr_max (negative dr_min, dr_min > dr_max, dr_min > n - r, negative dr_max) and
+   wide / square input: ValueError, for both variants and whatever the initialisation does *)
+Theorem C08_rect_rejects_dr : forall (T : Type) (K : ops T) masked (lu_init : @lu_t T) A e dr_min dr_max e0 k0,
+  ((dr_min < 0)%Z \/
+   (Z.min (match dr_max with Some d => Z.of_nat (mc A) + d | None => Z.of_nat (mr A) end) (Z.of_nat (mr A))
+    < Z.of_nat (mc A) + dr_min)%Z) ->
+  maxvol_rect_gen K masked lu_init A e dr_min dr_max e0 k0 = Err ValueError.
+Proof. exact @rect_rejects_dr. Qed.
+Theorem C08_rect_rejects_wide : forall (T : Type) (K : ops T) masked (lu_init : @lu_t T) A e dr_min dr_max e0 k0,
+  (mr A <= mc A)%nat -> maxvol_rect_gen K masked lu_init A e dr_min dr_max e0 k0 = Err ValueError.
+Proof. exact @rect_rejects_wide. Qed.
+
+(* ---------------- utils._maxvol ---------------- *)
+
+(* n <= r: I = arange(n), B = eye(n), which is a valid selection *)
+Theorem C08_dispatch_trivial : forall (T : Type) (K : ops T), ordfield K ->
+  forall masked (lu_init : @lu_t T) A tau dr_min dr_max tau0 k0, (mr A <= mc A)%nat ->
+  maxvol_dispatch K masked lu_init A tau dr_min dr_max tau0 k0 = Ok (seq 0 (mr A), mid K (mr A)) /\
+  sel_post K A (seq 0 (mr A)) (mid K (mr A)).
+Proof. exact @dispatch_trivial. Qed.
+Theorem C08_dispatch_maxvol : forall (T : Type) (K : ops T) masked (lu_init : @lu_t T) A tau dr_min dr_max tau0 k0,
+  (mc A < mr A)%nat -> Z.min dr_max (Z.of_nat (mr A) - Z.of_nat (mc A)) = 0%Z ->
+  maxvol_dispatch K masked lu_init A tau dr_min dr_max tau0 k0 = maxvol K lu_init A tau0 k0.
+Proof. exact @dispatch_maxvol. Qed.
+Theorem C08_dispatch_rect : forall (T : Type) (K : ops T) masked (lu_init : @lu_t T) A tau dr_min dr_max tau0 k0,
+  (mc A < mr A)%nat -> Z.min dr_max (Z.of_nat (mr A) - Z.of_nat (mc A)) <> 0%Z ->
+  maxvol_dispatch K masked lu_init A tau dr_min dr_max tau0 k0 =
+  maxvol_rect_gen K masked lu_init A tau (Z.min dr_min (Z.min dr_max (Z.of_nat (mr A) - Z.of_nat (mc A))))
+                  (Some (Z.min dr_max (Z.of_nat (mr A) - Z.of_nat (mc A)))) tau0 k0.
+Proof. exact @dispatch_rect. Qed.
+(* all 0 <= dr_min, 0 <= dr_max, every shape: never raises, returns distinct valid rows with A = B A[I], B[I] = Id *)
+Theorem C08_dispatch_spec : forall (T : Type) (K : ops T), ordfield K ->
+  forall (lu_init : @lu_t T) A tau dr_min dr_max tau0 k0,
+  (0 < mc A)%nat -> oleb K (o0 K) tau0 = true -> oleb K (o1 K) (omul K tau tau) = true ->
+  (0 <= dr_min)%Z -> (0 <= dr_max)%Z ->
+  ((mc A < mr A)%nat -> lu_contract K A (lu_init A)) ->
+  exists I B, maxvol_dispatch K true lu_init A tau dr_min dr_max tau0 k0 = Ok (I, B) /\ sel_post K A I B /\
+              (Nat.min (mr A) (mc A) <= length I <= mr A)%nat.
+Proof. exact @dispatch_spec. Qed.
+
+(* ---------------- non-vacuity ---------------- *)
+
+(* the laws hold for the exact carrier of the correspondence runs *)
 Example C08_ordfield_Qc : ordfield OQc.
 Proof. exact ordfield_Qc. Qed.
+
+(* the oracle contract is met by the executable initialisation on a concrete tall matrix, the iteration makes a
+   swap (I0 = [0;1] becomes [2;1]) and leaves by its test *)
+Definition A_ex : mat Qc := mk_mat 3 2 [[Q2Qc 2; Q2Qc 2]; [Q2Qc 2; Q2Qc 1]; [Q2Qc 1; Q2Qc 2]].
+Example C08_contract_example : lu_contract OQc A_ex (lu_exec OQc A_ex).
+Proof.
+  unfold lu_contract. eexists; eexists. split; [vm_compute; reflexivity|].
+  unfold mv_inv. cbn [A_ex mr mc length]. repeat split; auto.
+  - repeat constructor; cbn; intuition discriminate.
+  - intros k Hk. destruct k as [|[|k]]; cbn; lia.
+  - intros a c Ha Hc. destruct c as [|[|c]]; [| |lia]; (destruct a as [|[|[|a]]]; [| | |lia]);
+      apply Qc_is_canon; vm_compute; reflexivity.
+  - intros k l Hk Hl. destruct k as [|[|k]]; [| |lia]; (destruct l as [|[|l]]; [| |lia]);
+      apply Qc_is_canon; vm_compute; reflexivity.
+Qed.
+Example C08_maxvol_example :
+  (exists B, maxvol_full OQc (lu_exec OQc) A_ex (Q2Qc (21 # 20)) 0 = Ok ([0; 1]%nat, B, false)) /\
+  (exists B, maxvol_full OQc (lu_exec OQc) A_ex (Q2Qc (21 # 20)) 5 = Ok ([2; 1]%nat, B, true)) /\
+  maxvol OQc (lu_exec OQc) (mk_mat 2 2 [[Q2Qc 1; Q2Qc 0]; [Q2Qc 0; Q2Qc 1]]) (Q2Qc (21 # 20)) 5 = Err ValueError.
+Proof. split; [|split]; [eexists; vm_compute; reflexivity | eexists; vm_compute; reflexivity | reflexivity]. Qed.
+
+(* repaired maxvol_rect on the input of the finding: distinct rows; on A_ex with dr_min = dr_max = 1 the pinned run
+   selects only positive residuals (hypothesis of C08_rect_pinned_agrees) *)
+Example C08_rect_example :
+  (exists B, maxvol_rect OQc (lu_exec OQc) A_S1 (Q2Qc (11 # 10)) 1 (Some 1%Z) (Q2Qc (21 # 20)) 10 = Ok ([0; 1]%nat, B)) /\
+  rect_pos_full OQc (lu_exec OQc) A_ex (Q2Qc (11 # 10)) 1 (Some 1%Z) (Q2Qc (21 # 20)) 5 /\
+  (exists B, maxvol_rect_pinned OQc (lu_exec OQc) A_ex (Q2Qc (11 # 10)) 1 (Some 1%Z) (Q2Qc (21 # 20)) 5 = Ok ([2; 1; 0]%nat, B)) /\
+  maxvol_rect OQc (lu_exec OQc) A_ex (Q2Qc (11 # 10)) 2 (Some 1%Z) (Q2Qc (21 # 20)) 5 = Err ValueError.
+Proof.
+  split; [eexists; vm_compute; reflexivity|]. split; [vm_compute; repeat split|].
+  split; [eexists; vm_compute; reflexivity | reflexivity].
+Qed.
